@@ -76,7 +76,7 @@ impl Swarm {
             with_indexes: rng.chance(3, 4),
             idx_composite: rng.chance(1, 2),
             idx_unique: rng.chance(1, 3),
-            idx_prefix: rng.chance(1, 4),
+            idx_prefix: rng.chance(1, 2),
             idx_desc: rng.chance(1, 4),
             with_tx: rng.chance(1, 3),
             with_savepoints: false,
@@ -191,7 +191,7 @@ pub fn gen_table(rng: &mut Rng, sw: &Swarm, name: &str) -> TableDef {
 
 pub fn gen_index(rng: &mut Rng, sw: &Swarm, world: &mut World, def: &TableDef) -> IndexDef {
     let ncols = def.cols.len();
-    let n = if sw.idx_composite && ncols >= 2 && rng.chance(1, 3) { 2 } else { 1 };
+    let n = if sw.idx_composite && ncols >= 2 && rng.chance(1, 2) { 2 } else { 1 };
     let mut picked: Vec<usize> = Vec::new();
     while picked.len() < n {
         let c = rng.usize(ncols);
@@ -599,6 +599,19 @@ pub fn gen_fk_tables(rng: &mut Rng, sw: &Swarm) -> Vec<TableDef> {
         let mut t2 = mk("t2", 2);
         let parent = if rng.chance(1, 2) { "t1" } else { "t0" };
         t2.fks.push(Fk { col: 1, parent: parent.into(), parent_col: "c0".into(), on_delete: *rng.pick(&acts), on_update: *rng.pick(&acts) });
+        if rng.chance(1, 4) {
+            // a child with two foreign keys (onto two different parents). Referential actions of
+            // different keys on the same rows do not commute, so such a run uses NO ACTION / RESTRICT only
+            let other = if parent == "t1" { "t0" } else { "t1" };
+            t2.fks.push(Fk { col: 2, parent: other.into(), parent_col: "c0".into(), on_delete: None, on_update: None });
+            let strict = [None, Some(FkAction::NoAction), Some(FkAction::Restrict)];
+            for t in out.iter_mut().chain(std::iter::once(&mut t2)) {
+                for f in t.fks.iter_mut() {
+                    f.on_delete = *rng.pick(&strict);
+                    f.on_update = *rng.pick(&strict);
+                }
+            }
+        }
         out.push(t2);
     }
     out
